@@ -17,11 +17,15 @@ Node history (state = one node: style, seed, network, manager counters, channels
   setup <dbid> <peer33> <value>                  → ok <material> | err
   keys <dbid> <peer33>                           → ok <stub|ready> <material> | none
   advance <dbid> <peer33>                        → ok next=<n> released=<hex|none> | err
-  commit <dbid> <peer33> <n>                     → secret=<hex|none> point=<ok|refused> released=<yes|no> | none
+  commit <dbid> <peer33> <n>                     → secret=<hex|none> point=<ok|refused> released=<yes|no> future=<yes|no|na> | none
   rerevoke <dbid> <peer33> <N>                   → ok released=<hex|none> nextsecret=<hex> | err
                                                    (revoke_previous_holder_commitment(N) again, N < next)
   getpoint <dbid> <peer33> <n>                   → ok pointsecret=<hex> secret=<hex|none> | err
                                                    (pre-v6 GetPerCommitmentPoint: point n and the secret of n-2)
+  sweep <dbid> <peer33> <s|d|b> <n>              → ok key=<payment secret> | ok key=<delayed base secret> pcs=<secret n> | ok key=.. key2=.. pcs=.. | none
+                                                   (the signer spend_spendable_outputs re-derives from the keys id of a
+                                                   Static/DelayedPaymentOutput descriptor of the channel)
+  sweepall <n>                                   → ok <number of channels swept in one call>
   restart                                        → ok <number of channels restored>
 -/
 namespace VlsModel.Drv.Keys
@@ -200,7 +204,10 @@ def stepNode (d : DState) (toks : List String) : DState × String :=
         let sec := match holderSecret Sha256.sha256 c.keys n with
           | some s => toHex s
           | none => "none"
-        (d, s!"secret={sec} point={if pointAllowed c n then "ok" else "refused"} released={if secretReleasable c n then "yes" else "no"}")
+        let fut := match holderSecret Sha256.sha256 c.keys n with
+          | some s => if checkFutureSecret Sha256.sha256 c n s then "yes" else "no"
+          | none => "na"
+        (d, s!"secret={sec} point={if pointAllowed c n then "ok" else "refused"} released={if secretReleasable c n then "yes" else "no"} future={fut}")
     | _, _, _ => (d, "bad-op")
   | ["rerevoke", db, pr, ns], some _ =>
     match nat? db, hex? pr, nat? ns with
@@ -222,6 +229,34 @@ def stepNode (d : DState) (toks : List String) : DState × String :=
         | none => (d, "err")
         | some (pt, old) => (d, s!"ok pointsecret={optHex pt} secret={optHex old}")
     | _, _, _ => (d, "bad-op")
+  | ["sweep", db, pr, kind, ns], some (style, seed, net) =>
+    match nat? db, hex? pr, nat? ns with
+    | some dbid, some peer, some n =>
+      match findChan d.st.chans (chanId peer dbid) with
+      | none => (d, "none")
+      | some c =>
+        -- spend_spendable_outputs: derive_channel_keys(value, descriptor.channel_keys_id) with the
+        -- manager's counters as they are now (the call advances them)
+        let P := concretePrims (childOf d.oracle)
+        let k := sweepSigner P style seed net c d.st.km
+        let st' := step P style seed net d.st .sweep
+        if kind == "s" then (⟨d.cfg, st', d.oracle⟩, s!"ok key={toHex k.payment}")
+        else if kind == "d" then
+          (⟨d.cfg, st', d.oracle⟩, s!"ok key={toHex k.delayed} pcs={optHex (holderSecret Sha256.sha256 k n)}")
+        else if kind == "b" then
+          -- both descriptors of the channel in one call: one derivation (keys_cache)
+          (⟨d.cfg, st', d.oracle⟩, s!"ok key={toHex k.payment} key2={toHex k.delayed} pcs={optHex (holderSecret Sha256.sha256 k n)}")
+        else (d, "bad-op")
+    | _, _, _ => (d, "bad-op")
+  | ["sweepall", ns], some (style, seed, net) =>
+    match nat? ns with
+    | some _ =>
+      -- one spend_spendable_outputs call with both descriptors of every (non-random) channel:
+      -- one derivation per channel
+      let P := concretePrims (childOf d.oracle)
+      let st' := d.st.chans.foldl (fun s _ => step P style seed net s .sweep) d.st
+      (⟨d.cfg, st', d.oracle⟩, s!"ok {d.st.chans.length}")
+    | none => (d, "bad-op")
   | ["restart"], some (style, seed, net) =>
     let P := concretePrims (childOf d.oracle)
     let st' := step P style seed net d.st .restart
